@@ -23,7 +23,7 @@ META = dict(
     bounds=dict(
         quick="split: degree 0..3, <=2 interior knots (sampled patterns), 0-2 symbolic cuts and split(); polynomial and rational (p<=2); "
               "join: split-rejoin on ~11 concrete vectors of degree 0..3 (cuts inside every span: all control points symbolic; cuts at "
-              "every interior knot: the two control points next to the junction symbolic, the others fixed) and 4-8 independent pairs "
+              "every interior knot: the two control points next to the junction symbolic, the others fixed) and 8 independent pairs (equal and different degrees in both orders) "
               "(three control points next to the junction symbolic)",
         thorough="split: all patterns of degree <=3 with <=2 interior knots, up to 2 cuts; join: ~60 cases",
     ),
@@ -67,8 +67,6 @@ def configs(tier, seed):
                              mults=pat, vals=[str(v) for v in vals], dim=0, at=j))
     pairs = [(0, [1, 1], 0, [1, 1]), (1, [2, 2], 1, [2, 2]), (1, [2, 1, 2], 1, [2, 2]), (2, [3, 3], 2, [3, 1, 3]),
              (1, [2, 2], 2, [3, 3]), (2, [3, 2, 3], 1, [2, 2]), (3, [4, 4], 3, [4, 4]), (0, [1, 1], 1, [2, 2])]
-    if tier == "quick":
-        pairs = pairs[seed % 2::2] + [pairs[1]] * (seed % 2)
     for i, (p, ma, q, mb) in enumerate(pairs):
         cfgs.append(dict(name=f"join p={p} {ma} | q={q} {mb}", kind="join", p=p, ma=ma, q=q, mb=mb, k=i))
     cfgs.append(dict(name="join gap", kind="joingap"))
